@@ -1,3 +1,150 @@
-"""placeholder, replaced below"""
+"""(K2) Correspondence of the renderer model coq/Merge/Render4.v with nbdime/merging/strategies.py: the real
+cell_marker / output_marker / make_inline_cell_conflict are called on generated payloads (c04_runner 'render' op), the
+real merge is run on the hand-made triples that fire the similar-insert, record-conflict and inline-attachments
+renderers, and the model's value is compared with the implementation's (json_eqb, evaluated under coqc), together with
+the validity verdict of the Coq validator on the model's value vs jsonschema on the implementation's value at every
+minor.  The latter replays the `_refuted` witnesses of Props/C04.v on the implementation: if the implementation's
+marker cell became valid while the model's is still invalid, the model is stale (broken obligation)."""
+import os, re, json, copy, subprocess, tempfile, shutil
+import core, gennb, c04_coq, c04_valcorr, c04_cases
+
+HEADER = ('From Coq Require Import List NArith ZArith String.\n'
+          'From NB Require Import Base.Json Diff.Codec Schema.Schema Gen.NbSchemas Gen.RenderFacts Merge.Render4.\n'
+          'Import ListNotations.\nLocal Open Scope string_scope.\n'
+          'Definition b (x : bool) : nat := if x then 1 else 0.\n'
+          'Definition ob (o : option json) (j : json) : nat := match o with Some x => b (json_eqb x j) | None => 2 end.\n'
+          'Definition r (o : option bool) : nat := match o with Some true => 1 | Some false => 0 | None => 2 end.\n')
+ID_RE = re.compile(r'^[a-zA-Z0-9-_]+$')
+J = c04_coq.coq_json
+S = c04_coq.coq_str
+
+
+def jl(l): return '[' + '; '.join(J(x) for x in l) + ']'
+
+
+def kv(d): return '[' + '; '.join('(%s, %s)' % (S(k), J(d[k])) for k in sorted(d)) + ']'
+
+
+def run_coq(exprs):
+    """exprs: list of Gallina terms of type nat -> list of ints"""
+    d = tempfile.mkdtemp(prefix='nbv_rd_')
+    try:
+        body = ''.join('Eval vm_compute in [\n ' + ';\n '.join(exprs[i:i + 20]) + '].\n' for i in range(0, len(exprs), 20))
+        f = os.path.join(d, 'render_cases.v'); open(f, 'w').write(HEADER + body)
+        p = subprocess.run(['timeout', '600', 'coqc', '-Q', c04_coq.COQ, 'NB', f], capture_output=True, text=True, cwd=d)
+        if p.returncode != 0: raise RuntimeError((p.stderr + p.stdout)[-1200:])
+        out = []
+        for m in re.finditer(r'=\s*\[([^\]]*)\]\s*:\s*list nat', p.stdout):
+            out += [int(x) for x in m.group(1).replace('\n', ' ').split(';') if x.strip()]
+        if len(out) != len(exprs): raise RuntimeError('result count mismatch %d/%d' % (len(out), len(exprs)))
+        return out
+    finally:
+        shutil.rmtree(d, ignore_errors=True)
+
+
 def run(chk, tier):
-    return {'render_cases': 0}
+    r = chk.rng
+    ref = c04_valcorr.Ref(core.REPO)
+    n = 12 if tier == 'quick' else 60
+    texts = ['<<<<<<< local', '=======', '>>>>>>> remote', '', 'x\ny', 'caf' + chr(0xe9), '<b>&"q"</b>'] + [gennb.gen_line(r) for _ in range(n)]
+    tasks = [{'op': 'render', 'f': 'cell_marker', 'text': t} for t in texts]
+    tasks += [{'op': 'render', 'f': 'output_marker', 'text': t + '\n'} for t in texts]
+    inl = []
+    for i in range(n):
+        minor = r.choice([0, 3, 4, 5, 5])
+        used = set()
+        base = [gennb.gen_cell(r, minor, used, rich=False) for _ in range(r.randint(0, 4))]
+        start = r.randint(0, len(base))
+        lv = [gennb.gen_cell(r, minor, used, rich=False) for _ in range(r.randint(1, 2))]
+        rv = [gennb.gen_cell(r, minor, used, rich=False) for _ in range(r.randint(1, 2))]
+        lrem = r.randint(0, len(base) - start); rrem = r.randint(0, len(base) - start)
+        ld = [{'op': 'addrange', 'key': start, 'valuelist': lv}] + ([{'op': 'removerange', 'key': start, 'length': lrem}] if lrem else [])
+        rd = [{'op': 'addrange', 'key': start, 'valuelist': rv}] + ([{'op': 'removerange', 'key': start, 'length': rrem}] if rrem else [])
+        inl.append((minor, base, lv, rv, start, lrem, rrem))
+        tasks.append({'op': 'render', 'f': 'inline_cells', 'base_cells': base, 'local_diff': ld, 'remote_diff': rd})
+    # renderers reached through the merge itself
+    hand = []
+    for k in (4, 5):
+        for name, b, l, rm in c04_cases.handmade(k):
+            if name in ('insert_insert_similar', 'metadata_metadata'):   # (the LOCAL_/REMOTE_ attachment renamer is unreachable on the pinned code: KeyError, finding F13 of C03)
+                hand.append((name, k, b, l, rm))
+                tasks.append({'op': 'merge', 'base': b, 'local': l, 'remote': rm, 'args': {'merge_strategy': 'inline'}})
+    from props import c04 as c04mod
+    res = c04mod.run_tasks(tasks)
+    exprs = []; what = []; nid = 0
+    def add(e, w): exprs.append(e); what.append(w)
+    def verdicts(model_term, impl_value, defn, w):
+        """Coq validity of the model's value vs jsonschema validity of the implementation's, at every minor"""
+        for k in range(6):
+            add('r (validate_run nb_defs_%d (SRef %s) %s)' % (k, S('nb#/definitions/' + defn), model_term),
+                (w, 'valid@4.%d' % k, ref.is_valid('nb%d:/definitions/%s' % (k, defn), impl_value)))
+    i = 0
+    for t in texts:
+        x = res[i]; i += 1
+        if 'ok' not in x: chk.broken_obligation('correspondence:renderer-call', {'f': 'cell_marker', 'result': x}); continue
+        c = x['ok']; cid = c.get('id', '')
+        if 'id' in c:
+            nid += 1
+            if not (isinstance(cid, str) and ID_RE.search(cid) and 1 <= len(cid) <= 64 and not cid.endswith('\n')):
+                chk.broken_obligation('assumption:id_ok', {'generated id': cid})
+        term = '(cell_marker true %s %s)' % (S(cid), S(t))
+        add('b (json_eqb %s %s)' % (term, J(c)), (('cell_marker', t), 'eq', 1))
+        verdicts(term, c, 'cell', ('cell_marker', t))
+    for t in texts:
+        x = res[i]; i += 1
+        if 'ok' not in x: chk.broken_obligation('correspondence:renderer-call', {'f': 'output_marker', 'result': x}); continue
+        term = '(output_marker %s)' % S(t + '\n')
+        add('b (json_eqb %s %s)' % (term, J(x['ok'])), (('output_marker', t), 'eq', 1))
+        verdicts(term, x['ok'], 'output', ('output_marker', t))
+    for (minor, base, lv, rv, start, lrem, rrem) in inl:
+        x = res[i]; i += 1
+        if 'ok' not in x: chk.broken_obligation('correspondence:renderer-call', {'f': 'make_inline_cell_conflict', 'result': x}); continue
+        cells = x['ok']
+        nl = len(lv) + max(0, lrem - rrem)
+        ids = [cells[j].get('id', '') for j in (0, nl + 1, len(cells) - 1)]
+        term = '(JArr (make_inline_cell_conflict (%s, %s, %s) %s %s %s %d %d %d))' % (S(ids[0]), S(ids[1]), S(ids[2]), jl(base), jl(lv), jl(rv), start, lrem, rrem)
+        add('b (json_eqb %s %s)' % (term, J(cells)), (('make_inline_cell_conflict', {'base': base, 'lvals': lv, 'rvals': rv, 'start': start, 'lremove': lrem, 'rremove': rrem}), 'eq', 1))
+    for (name, k, b_, l_, rm_) in hand:
+        x = res[i]; i += 1
+        if 'err' in x: chk.broken_obligation('correspondence:renderer-merge', {'triple': name, 'result': x}); continue
+        decs = x['decisions']; merged = x['merged']
+        if name == 'insert_insert_similar':
+            def one_cell(df): return isinstance(df, list) and len(df) == 1 and df[0].get('op') == 'addrange' and len(df[0]['valuelist']) == 1
+            ds = [d for d in decs if d.get('common_path') == ['cells'] and d.get('action') == 'custom' and one_cell(d.get('local_diff'))
+                  and one_cell(d.get('remote_diff')) and one_cell(d.get('custom_diff'))]
+            if len(ds) != 1: chk.broken_obligation('correspondence:similar-insert', {'decisions': decs}); continue
+            d = ds[0]
+            lcell = d['local_diff'][0]['valuelist'][0]; rcell = d['remote_diff'][0]['valuelist'][0]
+            # the keys patched by the local->remote diff of the two cells: those whose values differ
+            keys = sorted(q for q in set(lcell) & set(rcell) if json.dumps(lcell[q], sort_keys=True) != json.dumps(rcell[q], sort_keys=True))
+            cell = d['custom_diff'][0]['valuelist'][0]
+            term = '(similar_insert_cell %s %s [%s] %s)' % (kv(lcell), kv(rcell), '; '.join(S(q) for q in keys), S(cell.get('source', '')))
+            add('ob %s %s' % (term, J(cell)), (('similar_insert_cell', {'lcell': lcell, 'rcell': rcell, 'keys': keys}), 'eq', 1))
+            add('match %s with Some c => r (validate_run nb_defs_%d (SRef %s) c) | None => 2 end' % (term, k, S('nb#/definitions/cell')),
+                (('similar_insert_cell', {'lcell': lcell, 'rcell': rcell, 'keys': keys}), 'valid@4.%d' % k, ref.is_valid('nb%d:/definitions/cell' % k, cell)))
+        elif name == 'metadata_metadata':
+            for base_md, merged_md in ((b_['metadata'], merged['metadata']), (b_['cells'][0]['metadata'], merged['cells'][0]['metadata'])):
+                rec = merged_md.get('nbdime-conflicts')
+                if not (isinstance(rec, dict) and set(rec) == {'local_diff', 'remote_diff'}):
+                    chk.broken_obligation('correspondence:record-conflict', {'merged metadata': merged_md}); continue
+                term = '(record_conflicts %s %s %s)' % (kv(base_md), jl(rec['local_diff']), jl(rec['remote_diff']))
+                add('b (json_eqb %s %s)' % (term, J(merged_md)), (('record_conflicts', base_md), 'eq', 1))
+        elif name == 'attachment_attachment':
+            att = b_['cells'][0]['attachments']; key = sorted(att)[0]
+            lval = l_['cells'][0]['attachments'][key]; rval = rm_['cells'][0]['attachments'][key]
+            term = '(rename_attachments %s %s %s %s)' % (kv(att), S(key), J(lval), J(rval))
+            add('b (json_eqb %s %s)' % (term, J(merged['cells'][0]['attachments'])), (('rename_attachments', att), 'eq', 1))
+    try:
+        out = run_coq(exprs)
+    except RuntimeError as e:
+        chk.broken_obligation('correspondence:renderer-run', str(e)[-900:])
+        return {'render_cases': 0}
+    mism = 0
+    for v, (w, kind, expect) in zip(out, what):
+        want = 1 if expect is True or expect == 1 else 0
+        if v != want:
+            mism += 1
+            if mism <= 3:
+                chk.broken_obligation('correspondence:renderer' if kind == 'eq' else 'witness-replay:model-and-implementation-disagree-on-validity',
+                                      {'renderer': w[0], 'input': w[1], 'check': kind, 'implementation': expect, 'model': v})
+    return {'render_cases': len(exprs), 'render_mismatches': mism, 'generated_ids_checked': nid}
